@@ -30,6 +30,8 @@ class Held:
 
 def hold(w: dict, ds: xarray.Dataset) -> Held:
     via = w.get("via", "memory")
+    if via == "emsopen" and w.get("conv") == "arakawa":
+        via = "file"       # emsarray.open_dataset binds what it detects; plain Arakawa C has to be constructed by hand
     if w.get("bounds_as_coords"):
         names = [ds[n].attrs["bounds"] for n in ds.variables if ds[n].attrs.get("bounds") in ds.data_vars]
         ds = ds.set_coords(names)
@@ -49,3 +51,26 @@ def hold(w: dict, ds: xarray.Dataset) -> Held:
     else:
         raise ValueError(via)
     return Held(r, tmp)
+
+
+_open: list[Held] = []
+
+
+def hold_ds(w: dict, ds: xarray.Dataset) -> xarray.Dataset:
+    """hold() for drivers that only want the dataset; released by the `closing` wrapper of their execute()"""
+    h = hold(w, ds)
+    _open.append(h)
+    return h.ds
+
+
+def closing(fn):
+    import functools
+
+    @functools.wraps(fn)
+    def wrapper(case):
+        try:
+            return fn(case)
+        finally:
+            while _open:
+                _open.pop().close()
+    return wrapper
